@@ -8,6 +8,7 @@
 #include <unordered_map>
 #include <algorithm>
 #include <set>
+#include <deque>
 
 using namespace vh;
 using namespace ipr;
@@ -33,6 +34,12 @@ struct Req {
 };
 
 struct Harness {
+   // Strings that this Lexicon did not intern: words of another Lexicon and free-standing String nodes (declared first:
+   // they outlive `lex`, whose nodes may refer to them)
+   impl::Lexicon other;
+   std::deque<std::u8string> foreign_bytes;
+   std::deque<impl::String> foreign_nodes;
+   std::set<std::string> foreign_ever;      // spellings ever requested through a String the Lexicon did not intern
    impl::Lexicon lex;
    impl::Translation_unit unit { lex };
    Rng rng;
@@ -91,6 +98,22 @@ struct Harness {
       }
    }
 
+   // the String operand of a String-taking overload: the Lexicon's own interned word, the equally spelled word of another
+   // Lexicon, or a free-standing String node -- "same arguments" for a spelling-keyed constructor means same spelling
+   const String& str(const std::string& w, int variant)
+   {
+      auto u8 = widen(w);
+      const int src = (variant >> 2) & 3;
+      if (src == 1) { foreign_ever.insert(w); ctx().count("string_operands_from_another_lexicon"); return other.get_string(u8); }
+      if (src == 2) {
+         foreign_ever.insert(w); ctx().count("string_operands_free_standing");
+         foreign_bytes.emplace_back(u8); foreign_nodes.emplace_back(util::word_view(foreign_bytes.back()));
+         return foreign_nodes.back();
+      }
+      return lex.get_string(u8);
+   }
+   bool own_string(const String& s, const std::string& w) { return foreign_ever.count(w) ? narrow(s.characters()) == w : &s == &lex.get_string(widen(w)); }
+
    const Identifier& ident(const std::string& w, int variant)
    {
       Req r; r.ctor = IDENT; r.word = w;
@@ -128,17 +151,17 @@ struct Harness {
       auto u8 = widen(r.word);
       switch (r.ctor) {
       case IDENT: {
-         auto& n = (variant & 1) ? lex.get_identifier(lex.get_string(u8)) : lex.get_identifier(u8);
+         auto& n = (variant & 1) ? lex.get_identifier(str(r.word, variant)) : lex.get_identifier(u8);
          puts(key, r.word); node = static_cast<const Name*>(&n); asnode = &n; cat = Category_code::Identifier;
          if (narrow(n.string().characters()) != r.word) bad(r, "identifier spelled differently from the request");
-         if (&n.string() != &lex.get_string(u8)) bad(r, "identifier's string is not the interned word");
+         if (!own_string(n.string(), r.word)) bad(r, "identifier's string is not the interned word");
          is_constant = reserved.count(r.word) != 0;
          break;
       }
       case OPER: {
-         auto& n = (variant & 1) ? lex.get_operator(lex.get_string(u8)) : lex.get_operator(u8);
+         auto& n = (variant & 1) ? lex.get_operator(str(r.word, variant)) : lex.get_operator(u8);
          puts(key, r.word); node = static_cast<const Name*>(&n); asnode = &n; cat = Category_code::Operator;
-         if (&n.opname() != &lex.get_string(u8)) bad(r, "operator name is not the interned word");
+         if (!own_string(n.opname(), r.word)) bad(r, "operator name is not the interned word");
          break;
       }
       case SUFFIX: {
@@ -159,9 +182,9 @@ struct Harness {
          break;
       }
       case LOGO: {
-         auto& n = lex.get_logogram(lex.get_string(u8));
+         auto& n = lex.get_logogram(str(r.word, variant | 1));
          puts(key, r.word); node = &n;
-         if (&n.what() != &lex.get_string(u8)) bad(r, "logogram does not report the interned word");
+         if (!own_string(n.what(), r.word)) bad(r, "logogram does not report the interned word");
          break;
       }
       case SYMBOL: {
@@ -191,16 +214,16 @@ struct Harness {
          const Literal* n = nullptr;
          switch (variant & 3) {
          case 0: n = &lex.get_literal(*r.type, u8); break;
-         case 1: n = &lex.get_literal(*r.type, lex.get_string(u8)); break;
+         case 1: n = &lex.get_literal(*r.type, str(r.word, variant)); break;
          case 2: n = lex.make_literal(*r.type, u8); break;
-         default: n = lex.make_literal(*r.type, lex.get_string(u8)); break;
+         default: n = lex.make_literal(*r.type, str(r.word, variant)); break;
          }
          put(key, r.type); puts(key, r.word); node = static_cast<const Expr*>(n); asnode = n; cat = Category_code::Literal;
-         if (&n->type() != r.type || &n->string() != &lex.get_string(u8)) bad(r, "literal does not report its type/spelling");
+         if (&n->type() != r.type || !own_string(n->string(), r.word)) bad(r, "literal does not report its type/spelling");
          break;
       }
       case LINKAGE: {
-         auto& n = (variant & 1) ? lex.get_linkage(lex.get_string(u8)) : lex.get_linkage(u8);
+         auto& n = (variant & 1) ? lex.get_linkage(str(r.word, variant)) : lex.get_linkage(u8);
          puts(key, r.word); node = &n;
          if (narrow(n.language().what().characters()) != r.word) bad(r, "linkage spelled differently from the request");
          if (r.word == "C") { is_constant = true; if (&n != &L.c_linkage()) ctx().viol("linkage:C-lookalike", "get_linkage(\"C\") is not Lexicon::c_linkage()", describe(r)); }
@@ -380,7 +403,7 @@ static void body(Ctx& C)
           "pairs of a spelling pool; live tables validated through the hook");
    C.assume("the 56 reserved spellings of the pinned tree are the oracle for which identifiers are process-wide constants");
    for (int c = 0; c < NCTOR; ++c) { C.need(std::string("distinct_keys:") + ctor_name[c]); C.need(std::string("re_requests:") + ctor_name[c]); }
-   C.need("single_identifier_checks"); C.need("reserved_word_checks"); C.need("equality_pairs"); C.need("table_validations");
+   C.need("string_operands_from_another_lexicon"); C.need("string_operands_free_standing"); C.need("single_identifier_checks"); C.need("reserved_word_checks"); C.need("equality_pairs"); C.need("table_validations");
    C.need("string_pool_rollovers_during_name_requests"); C.need("final_replays"); C.need("symbol_route_label"); C.need("symbol_route_this"); C.need("symbol_route_direct");
    const int histories = C.thorough ? 12 : 3;
    const long long nreq = C.thorough ? 150000 : 6000;
